@@ -141,7 +141,7 @@ def main():
             na.append({'property_id': pid, 'reason': NOT_YET.get(pid, 'check not built yet in this round; planned in DESIGN.md section 10 (no claim is made until the model, theorems and correspondence exist)')})
     m = {
         'version': 1,
-        'setup_cmd': 'cd lean && lake build Rbql rbql_model',
+        'setup_cmd': 'cd lean && lake build Rbql rbql_model RbqlGen',
         'hooks': {
             'guard': 'RBQL_VERIF (unused: no instrumentation was added to /repo; every observation point is public API)',
             'enable': 'not needed; checks import /repo/rbql-py via PYTHONPATH and require /repo/rbql-js/*.js by absolute path',
